@@ -10,7 +10,11 @@ FT = [('char', 1), ('short', 2), ('int', 4), ('long', 8), ('long long', 8), ('un
 
 
 ARITH = ['int', 'unsigned int', 'short', 'long', 'unsigned long long', 'signed char', 'double',
-         'float', '_Bool', 'uint16_t']
+         'float', '_Bool', 'uint16_t', 'unsigned char', 'long long', 'unsigned long', 'int8_t']
+
+INT_RANGE = {'int': (4, 1), 'unsigned int': (4, 0), 'short': (2, 1), 'long': (8, 1),
+             'unsigned long long': (8, 0), 'signed char': (1, 1), 'uint16_t': (2, 0),
+             'unsigned char': (1, 0), 'long long': (8, 1), 'unsigned long': (8, 0), 'int8_t': (1, 1)}
 
 
 def render_struct(name, fields, dots=False):
@@ -43,7 +47,7 @@ def gen_source(seed):
         items.append({'kind': 'func', 'name': 'fn%d' % i, 'args': args, 'ret': rnd.choice(ARITH),
                       'k': rnd.randint(1, 9)})
     for i in range(6):
-        items.append({'kind': 'glob', 'name': 'g%d' % i, 'type': rnd.choice(ARITH[:6] + ['double']),
+        items.append({'kind': 'glob', 'name': 'g%d' % i, 'type': rnd.choice(ARITH[:6] + ARITH[10:] + ['double']),
                       'init': rnd.randint(1, 100)})
     return items
 
@@ -129,7 +133,6 @@ def argval(rnd, T):
         return rnd.choice([True, False])
     if T in ('double', 'float'):
         return float(rnd.randint(-1000, 1000))
-    size, signed = {'int': (4, 1), 'unsigned int': (4, 0), 'short': (2, 1), 'long': (8, 1),
-                    'unsigned long long': (8, 0), 'signed char': (1, 1), 'uint16_t': (2, 0)}[T]
+    size, signed = INT_RANGE[T]
     lo, hi = (-(1 << (8 * size - 1)), (1 << (8 * size - 1)) - 1) if signed else (0, (1 << 8 * size) - 1)
     return rnd.choice([lo, hi, 0, 1, rnd.randint(lo, hi)])
